@@ -99,6 +99,8 @@ pub fn conversion_types() -> Vec<(Ty, E)> {
         (list(Ty::Int), E::List(vec![int(1)])),
         (list(Ty::Bit), E::List(vec![int(1)])),
         (list(Ty::Bits(1)), E::List(vec![E::Bits(vec![int(1)])])),
+        (list(Ty::Str), E::List(vec![s("s")])),
+        (list(Ty::Code), E::List(vec![E::Code("c".into())])),
         (list(list(Ty::Int)), E::List(vec![E::List(vec![int(1)])])),
         (d0(), id("d0")),
         (d1(), id("dd")),
@@ -215,7 +217,28 @@ pub fn operator_fields() -> Vec<BI> {
 pub fn features() -> Vec<(&'static str, Vec<Item>)> {
     let mut all = base_features();
     all.extend(conversion_features());
+    all.push(("operand-conversions", operand_conversions()));
     all
+}
+
+/// Operator calls whose operands are values of declared types that convert to what the operator takes
+/// (a bit where an int is asked for, code for string, a list of bits for a list of int ...): the table
+/// `operand_conversions.tsv` lists the calls llvm-tblgen 14 accepts with the stated result type
+/// (tools/gen_operand_conversions.py; audited again by the thorough tier). One field per call.
+pub fn operand_conversions() -> Vec<Item> {
+    let ty = |t: &str| match t {
+        "bit" => Ty::Bit,
+        "int" => Ty::Int,
+        "string" => Ty::Str,
+        _ => list(Ty::Int),
+    };
+    let fields: Vec<BI> = include_str!("operand_conversions.tsv")
+        .lines()
+        .filter_map(|l| l.split_once('\t'))
+        .enumerate()
+        .map(|(i, (t, e))| f(ty(t), &format!("oc{i}"), E::Raw(e.to_string())))
+        .collect();
+    vec![def("opconv", vec![], Some(fields))]
 }
 
 /// Every convertible pair of the matrix, one group per kind of slot: a field initialiser, a body let, a
@@ -354,6 +377,17 @@ fn base_features() -> Vec<(&'static str, Vec<Item>)> {
             ],
         ),
         ("let-group", vec![Item::Let { binds: vec![("f".into(), int(9)), ("g".into(), s("l"))], body: vec![def("l1", vec![a_of(vec![int(1)])], None), def("l2", vec![a_of(vec![int(2)])], None)], braces: true }]),
+        (
+            // the arguments of a later parent see the fields inherited from an earlier one
+            "parent-args-see-earlier-parents",
+            vec![
+                c("Sized", vec![], vec![], Some(vec![f(Ty::Int, "Width", int(4))])),
+                c("Slot", vec![ti("n")], vec![], Some(vec![f(Ty::Int, "Count", id("n"))])),
+                def("r0", vec![CRef::plain("Sized"), CRef::with("Slot", vec![id("Width")])], None),
+                c("Packed", vec![], vec![CRef::plain("Sized"), CRef::with("Slot", vec![bang("!add", vec![id("Width"), int(1)])])], None),
+                def("r1", vec![CRef::plain("Packed")], None),
+            ],
+        ),
         (
             "class-values",
             vec![def(
@@ -494,7 +528,7 @@ pub fn valid_programs(pairs: bool, mut f: impl FnMut(&Program, &str) -> bool) {
             }
         }
     }
-    combos.push((0..feats.len()).filter(|&i| !feats[i].0.starts_with("conversions")).collect());
+    combos.push((0..feats.len()).filter(|&i| !feats[i].0.starts_with("conversions") && feats[i].0 != "operand-conversions").collect());
     for combo in combos {
         let tag: String = combo.iter().map(|&i| feats[i].0).collect::<Vec<_>>().join("+");
         let body: Vec<Item> = combo.iter().flat_map(|&i| feats[i].1.clone()).collect();
